@@ -83,6 +83,133 @@ class NpInt(int):
         return NpInt(_coerce(-int(self), self.dtype), self.dtype)
 
 
+def _f32(v):
+    import struct
+    v = float(v)
+    if v != v or v in (float('inf'), float('-inf')):
+        return v
+    try:
+        return struct.unpack('f', struct.pack('f', v))[0]
+    except OverflowError:
+        return float('inf') if v > 0 else float('-inf')
+
+
+def _np_div(a, b):
+    """numpy scalar division: x/0 is +-inf, 0/0 is nan (a RuntimeWarning, not ZeroDivisionError)"""
+    a, b = float(a), float(b)
+    if b == 0:
+        if a != a or a == 0:
+            return float('nan')
+        neg = (a < 0) != (str(b)[0] == '-')
+        return float('-inf') if neg else float('inf')
+    return a / b
+
+
+def _num(o):
+    return isinstance(o, (int, float, NpF32)) and not isinstance(o, NpBool)
+
+
+class NpF64(float):
+    """numpy.float64 scalar: a float subclass; arithmetic stays numpy (division by zero gives inf/nan), repr is numpy 2's"""
+    dtype = 'float64'
+    isa = ('float64', 'floating', 'number', 'generic', 'double')
+
+    def _r(self, o, op):
+        if not _num(o):
+            return NotImplemented
+        return NpF64(op(float(self), float(o)))
+
+    def __add__(self, o): return self._r(o, lambda a, b: a + b)
+    __radd__ = __add__
+    def __sub__(self, o): return self._r(o, lambda a, b: a - b)
+    def __rsub__(self, o): return self._r(o, lambda a, b: b - a)
+    def __mul__(self, o): return self._r(o, lambda a, b: a * b)
+    __rmul__ = __mul__
+    def __truediv__(self, o): return self._r(o, _np_div)
+    def __rtruediv__(self, o): return self._r(o, lambda a, b: _np_div(b, a))
+    def __neg__(self): return NpF64(-float(self))
+    def __abs__(self): return NpF64(abs(float(self)))
+    def __pow__(self, o): return self._r(o, lambda a, b: a ** b)
+    def __repr__(self): return 'np.float64(%r)' % float(self)
+    def __str__(self): return float.__repr__(self)
+    __hash__ = float.__hash__
+
+
+class NpF32:
+    """numpy.float32 scalar: NOT a float subclass; value rounded to single precision; arithmetic with Python numbers stays float32"""
+    dtype = 'float32'
+    isa = ('float32', 'floating', 'number', 'generic')
+
+    def __init__(self, v):
+        self.v = _f32(v)
+
+    def _r(self, o, op):
+        if isinstance(o, NpF64):
+            return NpF64(op(self.v, float(o)))
+        if not _num(o):
+            return NotImplemented
+        return NpF32(op(self.v, float(o)))
+
+    def __float__(self): return self.v
+    def __int__(self): return int(self.v)
+    def __bool__(self): return bool(self.v)
+    def __add__(self, o): return self._r(o, lambda a, b: a + b)
+    __radd__ = __add__
+    def __sub__(self, o): return self._r(o, lambda a, b: a - b)
+    def __rsub__(self, o): return self._r(o, lambda a, b: b - a)
+    def __mul__(self, o): return self._r(o, lambda a, b: a * b)
+    __rmul__ = __mul__
+    def __truediv__(self, o): return self._r(o, _np_div)
+    def __rtruediv__(self, o): return self._r(o, lambda a, b: _np_div(b, a))
+    def __pow__(self, o): return self._r(o, lambda a, b: a ** b)
+    def __neg__(self): return NpF32(-self.v)
+    def __abs__(self): return NpF32(abs(self.v))
+    def _c(self, o, op):
+        if not _num(o):
+            return NotImplemented
+        return NpBool(op(self.v, float(o)))
+    def __eq__(self, o): return self._c(o, lambda a, b: a == b)
+    def __ne__(self, o):
+        r = self._c(o, lambda a, b: a != b)
+        return NpBool(True) if r is NotImplemented else r
+    def __lt__(self, o): return self._c(o, lambda a, b: a < b)
+    def __le__(self, o): return self._c(o, lambda a, b: a <= b)
+    def __gt__(self, o): return self._c(o, lambda a, b: a > b)
+    def __ge__(self, o): return self._c(o, lambda a, b: a >= b)
+    def __hash__(self): return hash(self.v)
+    def __repr__(self): return 'np.float32(%r)' % self.v
+    def __str__(self): return repr(self.v)
+    def __format__(self, spec): return format(self.v, spec)
+
+
+class NpBool:
+    """numpy.bool_ scalar: truthy/falsy, equal to the Python bool, but neither `is True/False` nor an int"""
+    dtype = 'bool'
+    isa = ('bool_', 'generic')
+
+    def __init__(self, v):
+        self.v = bool(v)
+
+    def __bool__(self): return self.v
+    def __eq__(self, o): return NpBool(self.v == bool(o)) if isinstance(o, (bool, int, NpBool)) else NotImplemented
+    def __ne__(self, o): return NpBool(self.v != bool(o)) if isinstance(o, (bool, int, NpBool)) else NotImplemented
+    def __hash__(self): return hash(self.v)
+    def __and__(self, o): return NpBool(self.v and bool(o))
+    __rand__ = __and__
+    def __or__(self, o): return NpBool(self.v or bool(o))
+    __ror__ = __or__
+    def __invert__(self): return NpBool(not self.v)
+    def __int__(self): return int(self.v)
+    def __index__(self): return int(self.v)
+    def __float__(self): return float(self.v)
+    def __add__(self, o): return int(self.v) + o
+    __radd__ = __add__
+    def __mul__(self, o): return int(self.v) * o
+    __rmul__ = __mul__
+    def __repr__(self): return 'np.True_' if self.v else 'np.False_'
+    __str__ = lambda self: 'True' if self.v else 'False'
+
+
 def _elem(v, dtype):
     if dtype in _INT_BITS and not isinstance(v, bool):
         return NpInt(v, dtype)
